@@ -47,6 +47,7 @@ Definition dval_eqb (a b : dval) : bool :=
   | DInt x, DInt y => Z.eqb x y
   | DFloat x, DFloat y => N.eqb x y
   | DHist c1 s1, DHist c2 s2 => N.eqb c1 c2 && Z.eqb s1 s2
+  | DStr x, DStr y => bytes_eqb x y
   | _, _ => false
   end.
 Definition olv_eqb (a b : olv) : bool :=
